@@ -15,6 +15,23 @@ boundary parses to exactly the items it contains, a buffer that ends inside an i
 hypothesis, not an axiom; the harness measures it on the real `QDomDocument` at every cut of every corpus
 stream, and the driver checks it for the Lean parser with `checkOracle` (proved sound below).
 
+## What is a theorem here and what is not
+
+* THE THEOREM is ARRIVAL INDEPENDENCE: how the text / the bytes are cut into reads does not change the events.
+* WHAT IS RECOGNISED in a buffer is not specified independently: it is DEFINED by the model of the code, `feedText` =
+  two regular expressions (`matchOpen`, `endsWithClose`) + ONE whole-document DOM parse of the wrapped buffer
+  (`attempt`).  This is not an incremental tokenizer: a buffer either yields the nodes of the whole wrapped document
+  or nothing and stays buffered.  `feedText` is tied to `XmppSocket::processData` by the correspondence run only.
+* Every framing theorem is proved under the side condition `PrefixOracle P items`, which the CODE DOES NOT ENFORCE:
+  it is a property of the stream text and of the parser.  They are therefore named `…_partial`:
+  `framing_split_independent_partial`, `framing_delivers_exactly_partial`,
+  `framing_bytes_split_independent_stateful_partial`, `framing_bytes_split_independent_partial`
+  (also partial for other reasons: `utf8_perchunk_eq_iff_boundaries_partial`, `leanParser_complete_at_boundary_partial`).
+  Missing: valid streams that do NOT satisfy `PrefixOracle` — white space in front of the header (white space after
+  the closing tag IS covered since repo commit 109544b, see `afterCloseText` below; before, the property was false
+  there: finding `C03:bytes-after-stream-close`); and `PrefixOracle` for `QDomDocument` is measured on the corpus, not
+  proved.  Unconditional: `utf8_stateful_chunk_indep`, the `matchOpen…` theorems.
+
 Keep-alive notifications (`stanzaReceived` with a null element, emitted when the buffer holds only white
 space) legitimately depend on the split — "  " in one read is one notification, in two reads two — and are not
 stream-open / stanza / stream-close events: `events` removes them on both sides of every equation.
@@ -28,7 +45,7 @@ negation of the byte-level property (`C03_defect_split_in_multibyte`: `<m>ñ</m>
 two U+FFFD; `C03_defect_zwnbsp_at_read_start`: a read starting with U+FEFF lost it).  The code now keeps a decoder
 for the lifetime of the stream (`feedBytesCode = feedBytesStateful`), the old witnesses are kept below as
 examples of the CORRECT behaviour (and first in the harness corpus), and the full property is
-`framing_bytes_split_independent`.
+`framing_bytes_split_independent_partial`.
 -/
 namespace Qx.C03
 open Qx.Utf8
@@ -39,7 +56,7 @@ variable {E : Type}
 cut its text into reads (any number of reads, cuts anywhere: inside a tag, an attribute value, an entity, the
 header; empty reads allowed), the sequence of stream-open, stanza and stream-close events, with their contents,
 is the same as when the whole text arrives in one read. -/
-theorem framing_split_independent (P : Parser E) (items : List (Item E)) (hP : PrefixOracle P items)
+theorem framing_split_independent_partial (P : Parser E) (items : List (Item E)) (hP : PrefixOracle P items)
     (chunks : List (List Char)) (h : chunks.flatten = textOf items) :
     events (run P init chunks).2 = events (run P init [textOf items]).2 := by
   rw [run_good hP chunks init _ (by rw [h]; exact good_init items),
@@ -47,7 +64,7 @@ theorem framing_split_independent (P : Parser E) (items : List (Item E)) (hP : P
 
 /-- **Nothing lost, duplicated, reordered or altered.**  Under the same hypotheses the delivered events are
 exactly the events of the stream's items, in order, once each. -/
-theorem framing_delivers_exactly (P : Parser E) (items : List (Item E)) (hP : PrefixOracle P items)
+theorem framing_delivers_exactly_partial (P : Parser E) (items : List (Item E)) (hP : PrefixOracle P items)
     (chunks : List (List Char)) (h : chunks.flatten = textOf items) :
     events (run P init chunks).2 = events (evsOf items) :=
   run_good hP chunks init _ (by rw [h]; exact good_init items)
@@ -83,7 +100,7 @@ theorem utf8_perchunk_ne_when_cut_inside_char :
 well-formed UTF-8 for `textOf items` (optionally preceded by a byte order mark, which is not content) and EVERY
 split of the bytes into reads — including inside a multi-byte character, inside the BOM, empty reads — the events
 equal those of the one-read run and are exactly the stream's events. -/
-theorem framing_bytes_split_independent_stateful (P : Parser E) (items : List (Item E))
+theorem framing_bytes_split_independent_stateful_partial (P : Parser E) (items : List (Item E))
     (hP : PrefixOracle P items) (chunks : List Bytes) (cps : List Nat)
     (hvalid : decode? chunks.flatten = some cps) (htext : toChars (dropBom1 cps) = textOf items) :
     events (runBytes (feedBytesStateful P) chunks) = events (runBytes (feedBytesStateful P) [chunks.flatten])
@@ -112,12 +129,42 @@ Caveat (stated, not hidden): the decoder is modelled by the ideal incremental de
 `QTextDecoder` coincides with it on well-formed UTF-8 (measured on every read of every split in the correspondence
 run) but is itself not chunk independent on MALFORMED input; malformed UTF-8 is not a valid XMPP stream and is
 outside this theorem (`hvalid`). -/
-theorem framing_bytes_split_independent (P : Parser E) (items : List (Item E))
+theorem framing_bytes_split_independent_partial (P : Parser E) (items : List (Item E))
     (hP : PrefixOracle P items) (chunks : List Bytes) (cps : List Nat)
     (hvalid : decode? chunks.flatten = some cps) (htext : toChars (dropBom1 cps) = textOf items) :
     events (runBytes (feedBytesCode P) chunks) = events (runBytes (feedBytesCode P) [chunks.flatten])
     ∧ events (runBytes (feedBytesCode P) chunks) = events (evsOf items) :=
-  framing_bytes_split_independent_stateful P items hP chunks cps hvalid htext
+  framing_bytes_split_independent_stateful_partial P items hP chunks cps hvalid htext
+
+/-! ### Bytes after the closing tag (defect until repo commit 109544b, now part of the covered language) -/
+
+/-- header, one stanza, closing tag, ONE BLANK (legal XML: white space may follow the root element) -/
+def afterCloseText : List Char := "<stream:stream><a/></stream:stream> ".toList
+
+/-- Before 109544b the `$`-anchored close expression did not match this text in one read, a second closing tag was
+appended, the parse failed and NOTHING was delivered, while a read boundary before the blank delivered everything
+(`C03_defect_bytes_after_close`, finding `C03:bytes-after-stream-close`).  Now both deliver everything, and the stream
+satisfies `PrefixOracle` (next example), so it is covered by the `…_partial` theorems. -/
+example : events (run toyP init [afterCloseText]).2
+      = [.streamOpen "stream".toList, .stanza "a".toList, .streamClose]
+    ∧ events (run toyP init ["<stream:stream><a/></stream:stream>".toList, " ".toList]).2
+      = [.streamOpen "stream".toList, .stanza "a".toList, .streamClose]
+    ∧ events (run toyP init ["<stream:stream><a/></stream:str".toList, "eam> ".toList]).2
+      = [.streamOpen "stream".toList, .stanza "a".toList, .streamClose] := by
+  decide +kernel
+
+/-- **The hypothesis is now weaker in effect:** streams with white-space items AFTER the closing tag satisfy
+`PrefixOracle` (they could not before 109544b: the segment `</stream:stream>` + blank did not parse). -/
+example : PrefixOracle toyP [toyHdr, toyStanza "<a/>" "a", toyClose, toyWs, toyWs] :=
+  checkOracle_sound _ _ (by decide +kernel)
+
+/-- the close detection accepts any trailing white space and nothing else (the old one only one LF) -/
+example : endsWithCloseTolerant "<a/></stream:stream> \r\n\t".toList = true
+    ∧ endsWithCloseTolerant "<a/></stream:stream>".toList = true
+    ∧ endsWithCloseTolerant "<a/></stream:stream>x".toList = false
+    ∧ endsWithCloseStrict "<a/></stream:stream>\n".toList = true
+    ∧ endsWithCloseStrict "<a/></stream:stream>\r\n".toList = false := by
+  decide +kernel
 
 /-! ### The header matcher (`matchOpen` = transcription of `streamStartRegex`) -/
 
@@ -243,7 +290,7 @@ example : (run toyP init ["<stream:stream><a/>".toList, " ".toList]).2.length = 
 example : PrefixOracle toyP defectItems := checkOracle_sound _ _ (by decide +kernel)
 example : PrefixOracle toyP zwnbspItems := checkOracle_sound _ _ (by decide +kernel)
 
-/-- hypotheses of `framing_bytes_split_independent` on the three byte-level examples (cut inside a character,
+/-- hypotheses of `framing_bytes_split_independent_partial` on the three byte-level examples (cut inside a character,
 U+FEFF as content, BOM in front of the stream) -/
 example : decode? defectChunks.flatten = some (decodeLossy defectChunks.flatten)
     ∧ toChars (dropBom1 (decodeLossy defectChunks.flatten)) = textOf defectItems
